@@ -9,14 +9,20 @@ import sys
 rd, suf, out = sys.argv[1], sys.argv[2], sys.argv[3]
 last = {}
 for line in open(os.path.join(rd, "logs", "try.out")):
-    m = re.match(r"(C\d\d) (C\d\d) -> exit (\d+)", line)
+    m = re.match(r"([Cm]\d\d[a-z]?) (C\d\d) -> exit (\d+)", line)
     if m:
         last[(m.group(1), m.group(2))] = int(m.group(3))
 recs = {}
 for (sid, chk), code in sorted(last.items()):
     log = os.path.join(rd, "logs", "try_%s_%s.log" % (sid, chk))
     lines = [l.strip() for l in open(log, errors="replace") if l.startswith("VIOLATION")] if os.path.exists(log) else []
-    rec = recs.setdefault(sid, {"patch": "%s%s_seed.diff" % (sid, suf), "checks": {}, "preserving": False})
+    name = sid.rstrip("x")
+    if name.startswith("m"):
+        import glob
+        patch = os.path.basename(glob.glob(os.path.join(os.path.dirname(os.path.abspath(__file__)), "patches", name + "_*.diff"))[0])
+    else:
+        patch = "%s%s_seed.diff" % (name, "" if suf == "-" else suf)
+    rec = recs.setdefault(name, {"patch": patch, "checks": {}, "preserving": False})
     rec["checks"][chk] = {"exit": code, "lines": lines[:2], "how": "selftest/try_round.sh (scratch worktree of /repo with the change applied, VERIF_REPO)"}
 json.dump(list(recs.values()), open(out, "w"), indent=1)
 print(len(recs), "seeds")
